@@ -147,6 +147,10 @@ def _stage_loop(ctx: Ctx, f: Def, call: ast.Call):
             src = it.args[0]
             if isinstance(n.stmt.target, ast.Tuple) and isinstance(n.stmt.target.elts[0], ast.Name):
                 idx = n.stmt.target.elts[0].id
+                st_ = it.args[1] if len(it.args) > 1 else kwarg(it, "start")
+                if st_ is not None:
+                    # the index counts from `start`: only a constant start is understood
+                    idx = (idx, st_.value) if isinstance(st_, ast.Constant) and isinstance(st_.value, int) else None
         if isinstance(src, ast.Name) and any(s.value is call for s in fl.rdefs(src.id, n.id)):
             return n, src.id, idx
         if src is call:
@@ -165,6 +169,8 @@ def _lin(e: ast.AST, idx: str | None, stages: str | None, fl, at, depth: int = 4
             return {"n": 1}
         return None
     if isinstance(e, ast.Name):
+        if isinstance(idx, tuple) and e.id == idx[0]:
+            return {"i": 1, "1": idx[1]}
         if idx is not None and e.id == idx:
             return {"i": 1}
         ds = fl.rdefs(e.id, at)
@@ -321,7 +327,7 @@ def rechunk_plan(ctx: Ctx) -> None:
             src = s.value
             if s.kind == "for":
                 # for i, (r, m, w) in enumerate(stages): index path (1, k)
-                return s.index[-1] if s.index and isinstance(s.index[-1], int) and len(s.index) >= (2 if idx is not None else 1) and s.name != idx else None
+                return s.index[-1] if s.index and isinstance(s.index[-1], int) and len(s.index) >= (2 if idx is not None else 1) and s.name != (idx[0] if isinstance(idx, tuple) else idx) else None
             if isinstance(src, ast.Name) and src.id in loopvars and s.index:
                 return s.index[-1] if isinstance(s.index[-1], int) else None
             if isinstance(src, ast.Subscript) and isinstance(src.value, ast.Name) and src.value.id in loopvars and isinstance(src.slice, ast.Constant):
